@@ -118,8 +118,7 @@ func plan(env *tl.Env, rng *rand.Rand, thorough bool) []*scen {
 			}
 			i++
 		}
-		// (g_two48k: the generated audio loop is 16 ms longer than the video loop - not an admissible pair, left out)
-		for _, as := range []string{"testpic_2s", "g_1001tl", "g_irr90k", "g_irr50"} {
+		for _, as := range []string{"testpic_2s", "g_1001tl", "g_irr90k", "g_irr50", "g_two48k"} {
 			for fi, f := range fs {
 				mode := []string{"number", "tlnr"}[(i+fi)%2] // audio $Time$ addressing is C04's business
 				add(as, true, mode, []int{-1, 1, 5}[(i+fi)%3], []int64{0, bigAST}[(i+fi)%2], f, cds[(i+fi)%len(cds)], "", fi == 2, 2)
